@@ -39,8 +39,9 @@ man = {
         "add_only": True,
     },
     "engines": [
-        {"name": "kani", "path": "/verif/contracts/kani", "serves_properties": sorted(claimed), "kind_free_text": "Kani 0.68 / CBMC 6.11 harnesses compiled as child modules of the real source files"},
-        {"name": "verus", "path": "/verif/contracts/verus", "serves_properties": sorted(p for p in claimed if registry.PROPS[p].get("verus")), "kind_free_text": "Verus 0.2026.09.13 on function bodies extracted mechanically on every run"},
+        {"name": "kani", "path": "/verif/contracts/kani", "serves_properties": sorted(claimed & {p for u in registry.UNITS if u["engine"] == "kani" for h in u["harnesses"] for p in h["props"]}), "kind_free_text": "Kani 0.68 / CBMC 6.11 harnesses compiled as child modules of the real source files"},
+        {"name": "verus", "path": "/verif/contracts/verus", "serves_properties": sorted(claimed & {p for u in registry.UNITS if u["engine"] == "verus" for p in u["props"]}), "kind_free_text": "Verus 0.2026.09.13 on function bodies extracted mechanically on every run"},
+        {"name": "native-bounded", "path": "/verif/contracts/native", "serves_properties": sorted(claimed & {p for u in registry.UNITS if u["engine"] == "native" for p in u["props"]}), "kind_free_text": "bounded stand-ins: the real functions executed natively over an enumerated space where neither verifier reaches them; labelled bounded, never counted as proved"},
     ],
     "checks": checks,
     "not_applicable": na,
